@@ -49,8 +49,7 @@ def run(ctx):
     if ctx.quick():
         plan = {"Python": 2, "C": 2, "JavaScript": 2, "Java": 2, "TypeScript": 2, "Cpp": 2, "CSharp": 2}
     else:
-        plan = {l: 4 for l in ("Python", "C", "JavaScript", "Java")}
-        plan.update({"TypeScript": 3, "Cpp": 3, "CSharp": 3})
+        plan = {l: 3 for l in ("Python", "C", "JavaScript", "Java", "TypeScript", "Cpp", "CSharp")}     # N=4 did not finish inside any sensible budget (>2 h on 16 cores)
     jobs = soup_common.soup_jobs(ctx, "total", plan)
     jobs += soup_common.mutation_jobs(ctx, ["two", "params-multiline", "one-arrow"] if ctx.quick() else None)
     T = 150 if ctx.quick() else 600
